@@ -124,6 +124,10 @@ def get_atomic_sequence(xsd_type: Optional[XsdTypeProtocol],
     def decode(s: str) -> aliases.AtomicType:
         if isinstance(value, (dt.AbstractDateTime, dt.Duration)):
             return value.fromstring(s)
+        elif isinstance(value, bool):
+            if s.strip(' \t\n\r') not in ('true', 'false', '1', '0'):
+                raise ValueError(f'{s!r} is not a valid xs:boolean')
+            return s.strip(' \t\n\r') in ('true', '1')
         elif not isinstance(value, dt.AbstractQName):
             return value.__class__(s)
         else:
